@@ -57,10 +57,7 @@ def run(c):
         seen[key] = seen.get(key, 0) + 1
         if seen[key] <= 2:
             s = scen[owner[i]]
-            r2, _ = c.run_worker("sigdb", [s], parallel=1)
-            ev2 = [{k: v for k, v in x.items() if k not in ("sc", "i", "panic")} for x in r2.get(s["sc"], [])]
-            if not c.validate_traces("SigDbTrace", "SigDbTrace.cfg", ev2):
-                raise vf.FrameworkError("rejection not reproduced")
+            c.reproduce_trace("sigdb", s["sc"], "SigDbTrace", "SigDbTrace.cfg", ("sc", "i", "panic"))
         c.report(key, "event %s -> %s is not allowed by the specification" % (e.get("op"), e.get("res")), dict({"ops": scen[owner[i]]["ops"], "event": e}, **c.rp("sigdb", scen[owner[i]], validate=("SigDbTrace", "SigDbTrace.cfg"))))
     nrecode = sum(1 for e in events if e.get("op") == "recode")
     if nrecode == 0:
